@@ -792,7 +792,11 @@ pub fn interp(cache: AnyCache, tag: u32, ops: &[ROp], out: &mut String) -> Resul
                         out.push_str(&format!("C[{inner}];"));
                         r?;
                     }
-                    Err(_) => out.push_str("C[!panic];"),
+                    Err(_) => {
+                        // a caught panic of a nested load is a swallowed failure like a tolerant look-up
+                        note_tolerated(tag);
+                        out.push_str("C[!panic];");
+                    }
                 }
             }
             ROp::Fail => return Err("recipe FAIL".into()),
